@@ -36,6 +36,12 @@ def skips_message(v, inp, x, ps, lib):
       * inp[p + 1 ..] with p = inp.iter().position(|b| b == b'\\n') on the Some path."""
     if v is None:
         return False, "no value"
+    # the faulty message has no terminator in the input (outside the statement: not a complete message)
+    for c in x.conds:
+        if c[0] == "is" and c[2] == SOME and c[3] is False and c[1][0] == "call" and c[1][1].endswith("::position") and len(c[1][2]) == 2:
+            it, cl = c[1][2]
+            if it[0] == "call" and it[1].endswith("::iter") and it[2][0] == inp and newline_closure(ps, lib, cl):
+                return True, "no terminator in the input: the unterminated tail is outside the statement"
     if is_empty_slice(v):
         return True, "continues with an empty slice"
     if v[0] == "index" and v[1] == inp:
